@@ -150,6 +150,19 @@ func FilterFromProto(schema *sqlgen.Schema, proto *thunderpb.SQLFilter) (string,
 			// Dereference pointer if column type is not a pointer.
 			filter[col] = target.Elem().Interface()
 		}
+
+		// A number that does not fit the column's Go type was wrapped or rounded by
+		// the scan; the filter would then match other rows than the one that was sent.
+		switch val.(type) {
+		case int64, float64:
+			back, err := column.Descriptor.Valuer(reflect.ValueOf(filter[col])).Value()
+			if err != nil {
+				return "", nil, err
+			}
+			if reflect.TypeOf(back) == reflect.TypeOf(val) && back != val {
+				return "", nil, fmt.Errorf("value %v does not fit column %s", val, col)
+			}
+		}
 	}
 	return proto.Table, filter, nil
 }
